@@ -244,7 +244,7 @@ func yOffset(e ast.Expr, yname string) (int, bool) {
 	return 0, false
 }
 
-func coqZ(k int) string { return fmt.Sprintf("(%d)%%Z", k) }
+func dagCoqZ(k int) string { return fmt.Sprintf("(%d)%%Z", k) }
 
 // ---- snapNearBy
 
@@ -282,7 +282,7 @@ func (d *dagsGen) snapRules() []string {
 			if !ok || !ok2 || id.Name != takName {
 				return false
 			}
-			*out = append(*out, fmt.Sprintf("(%s, false)", coqZ(k)))
+			*out = append(*out, fmt.Sprintf("(%s, false)", dagCoqZ(k)))
 			return true
 		case *ast.IndexExpr:
 			id, ok := x.X.(*ast.Ident)
@@ -290,7 +290,7 @@ func (d *dagsGen) snapRules() []string {
 			if !ok || !ok2 || id.Name != takName {
 				return false
 			}
-			*out = append(*out, fmt.Sprintf("(%s, true)", coqZ(k)))
+			*out = append(*out, fmt.Sprintf("(%s, true)", dagCoqZ(k)))
 			return true
 		}
 		return false
@@ -350,7 +350,7 @@ func (d *dagsGen) snapRules() []string {
 					d.unk("snapNearBy", is)
 					break
 				}
-				rules = append(rules, fmt.Sprintf("mkSnap [%s] %s", strings.Join(cs, "; "), coqZ(mv)))
+				rules = append(rules, fmt.Sprintf("mkSnap [%s] %s", strings.Join(cs, "; "), dagCoqZ(mv)))
 				cur = is.Else
 			}
 		default:
@@ -372,7 +372,7 @@ func (d *dagsGen) layoutReserve(fd *ast.FuncDecl) []string {
 				if ix, ok := as.Lhs[0].(*ast.IndexExpr); ok {
 					if id, ok := ix.X.(*ast.Ident); ok && id.Name == "tak" && d.p.src(as.Rhs[0]) == "true" {
 						if k, ok := yOffset(ix.Index, "y"); ok {
-							offs = append(offs, coqZ(k))
+							offs = append(offs, dagCoqZ(k))
 							continue
 						}
 						d.unk("LayoutMap reservation", st)
